@@ -58,3 +58,131 @@ package tmconsensus
 //@   ensures same-keys: dom(result.Proofs) == dom(p.Proofs)
 //@   modifies nothing
 //@   loop 1 invariant fresh(cloneProofs) && (forall h string :: (h in cloneProofs) == visited(1)[h]) && (forall h string :: visited(1)[h] ==> h in p.Proofs)
+
+// ---- C06: vote power accounting ----
+// psum(vals, bits, k) = sum of vals[i].Power for 0 <= i < k with bits[i] (mathematical integers).
+
+//@ spec psum(vals []Validator, bits array[mathint,bool], k mathint) mathint reads Validator.Power
+//@ spec allbits() array[mathint,bool]
+//@ axiom allbits-def: forall i mathint :: allbits()[i]
+//@ axiom psum-zero: forall vals []Validator, bits array[mathint,bool], k mathint :: {psum(vals, bits, k)} k <= 0 ==> psum(vals, bits, k) == 0
+//@ axiom psum-step: forall vals []Validator, bits array[mathint,bool], k mathint :: {psum(vals, bits, k), bits[k]} {psum(vals, bits, k + 1)} k >= 0 ==>
+//@     psum(vals, bits, k + 1) == psum(vals, bits, k) + (bits[k] ? vals[k].Power : 0)
+//@ axiom psum-nonneg: forall vals []Validator, bits array[mathint,bool], k mathint :: {psum(vals, bits, k)} psum(vals, bits, k) >= 0
+//@ axiom psum-mono: forall vals []Validator, bits array[mathint,bool], k1 mathint, k2 mathint :: {psum(vals, bits, k1), psum(vals, bits, k2)} k1 <= k2 ==> psum(vals, bits, k1) <= psum(vals, bits, k2)
+// psum-nonneg and psum-mono are inductive consequences of psum-zero/psum-step; their induction steps are proved below
+// (the induction schema over k itself is trusted).
+//@ lemma[C06] psum-mono-step (without psum-mono psum-nonneg): forall vals []Validator, bits array[mathint,bool], k mathint :: k >= 0 ==> psum(vals, bits, k) <= psum(vals, bits, k + 1)
+//@ lemma[C06] psum-nonneg-step (without psum-mono psum-nonneg): forall vals []Validator, bits array[mathint,bool], k mathint ::
+//@     k >= 0 && psum(vals, bits, k) >= 0 ==> psum(vals, bits, k + 1) >= 0
+
+//@ func VoteSummary.SetAvailablePower
+//@   property C06
+//@   requires psum(vals, allbits(), len(vals)) <= MAXU64
+//@   ensures available-is-total: vs.AvailablePower == psum(vals, allbits(), len(vals))
+//@   modifies vs.AvailablePower
+//@   loop 1 invariant 0 <= rangeindex + 1 && rangeindex + 1 <= len(vals) && vs.AvailablePower == psum(vals, allbits(), rangeindex + 1)
+
+// More consequences of psum-zero/psum-step (each justified by its induction step, proved as a lemma without the axiom).
+//@ axiom psum-skip: forall vals []Validator, bits array[mathint,bool], a mathint, b mathint :: {psum(vals, bits, a), psum(vals, bits, b)}
+//@     a <= b && (forall j mathint :: a <= j && j < b ==> !bits[j]) ==> psum(vals, bits, b) == psum(vals, bits, a)
+//@ lemma[C06] psum-skip-step (without psum-none psum-skip psum-mono psum-nonneg psum-ext psum-add-bit psum-subset): forall vals []Validator, bits array[mathint,bool], a mathint, b mathint ::
+//@     a <= b && psum(vals, bits, b) == psum(vals, bits, a) && !bits[b] ==> psum(vals, bits, b + 1) == psum(vals, bits, a)
+//@ axiom psum-ext: forall vals []Validator, s array[mathint,bool], t array[mathint,bool], n mathint :: {psum(vals, s, n), psum(vals, t, n)}
+//@     (forall j mathint :: 0 <= j && j < n ==> s[j] == t[j]) ==> psum(vals, s, n) == psum(vals, t, n)
+//@ lemma[C06] psum-ext-step (without psum-none psum-skip psum-mono psum-nonneg psum-ext psum-add-bit psum-subset): forall vals []Validator, s array[mathint,bool], t array[mathint,bool], n mathint ::
+//@     n >= 0 && psum(vals, s, n) == psum(vals, t, n) && s[n] == t[n] ==> psum(vals, s, n + 1) == psum(vals, t, n + 1)
+//@ axiom psum-add-bit: forall vals []Validator, s array[mathint,bool], t array[mathint,bool], i mathint, n mathint :: {psum(vals, s, n), psum(vals, t, n), s[i]}
+//@     0 <= i && i < n && !s[i] && (forall j mathint :: t[j] == (s[j] || j == i)) ==> psum(vals, t, n) == psum(vals, s, n) + vals[i].Power
+//@ lemma[C06] psum-add-bit-step-below (without psum-none psum-skip psum-mono psum-nonneg psum-ext psum-add-bit psum-subset): forall vals []Validator, s array[mathint,bool], t array[mathint,bool], i mathint, n mathint ::
+//@     0 <= n && n <= i && (forall j mathint :: t[j] == (s[j] || j == i)) && psum(vals, t, n) == psum(vals, s, n) && n + 1 <= i ==> psum(vals, t, n + 1) == psum(vals, s, n + 1)
+//@ lemma[C06] psum-add-bit-step-at (without psum-none psum-skip psum-mono psum-nonneg psum-ext psum-add-bit psum-subset): forall vals []Validator, s array[mathint,bool], t array[mathint,bool], i mathint ::
+//@     0 <= i && !s[i] && (forall j mathint :: t[j] == (s[j] || j == i)) && psum(vals, t, i) == psum(vals, s, i) ==> psum(vals, t, i + 1) == psum(vals, s, i + 1) + vals[i].Power
+//@ lemma[C06] psum-add-bit-step-above (without psum-none psum-skip psum-mono psum-nonneg psum-ext psum-add-bit psum-subset): forall vals []Validator, s array[mathint,bool], t array[mathint,bool], i mathint, n mathint ::
+//@     0 <= i && i < n && (forall j mathint :: t[j] == (s[j] || j == i)) && psum(vals, t, n) == psum(vals, s, n) + vals[i].Power ==> psum(vals, t, n + 1) == psum(vals, s, n + 1) + vals[i].Power
+//@ axiom psum-subset: forall vals []Validator, s array[mathint,bool], t array[mathint,bool], n mathint :: {psum(vals, s, n), psum(vals, t, n)}
+//@     (forall j mathint :: 0 <= j && j < n && s[j] ==> t[j]) ==> psum(vals, s, n) <= psum(vals, t, n)
+//@ lemma[C06] psum-subset-step (without psum-none psum-skip psum-mono psum-nonneg psum-ext psum-add-bit psum-subset): forall vals []Validator, s array[mathint,bool], t array[mathint,bool], n mathint ::
+//@     n >= 0 && psum(vals, s, n) <= psum(vals, t, n) && (s[n] ==> t[n]) ==> psum(vals, s, n + 1) <= psum(vals, t, n + 1)
+
+//@ axiom psum-none: forall vals []Validator, bits array[mathint,bool], k mathint :: {psum(vals, bits, k)}
+//@     (forall j mathint :: 0 <= j && j < k ==> !bits[j]) ==> psum(vals, bits, k) == 0
+//@ lemma[C06] psum-none-step (without psum-none psum-skip psum-mono psum-nonneg psum-ext psum-add-bit psum-subset): forall vals []Validator, bits array[mathint,bool], k mathint ::
+//@     k >= 0 && psum(vals, bits, k) == 0 && !bits[k] ==> psum(vals, bits, k + 1) == 0
+
+// ubits(m): the set of validators that signed for at least one target of m.
+//@ spec ubits(m map[string]gcrypto.CommonMessageSignatureProof) array[mathint,bool] reads MD:Str, MV:Str:Iface, G:pbits
+//@ axiom ubits-intro: forall m map[string]gcrypto.CommonMessageSignatureProof, h string, i mathint :: {pbits(m[h])[i], ubits(m)}
+//@     h in m && pbits(m[h])[i] ==> ubits(m)[i]
+//@ axiom ubits-elim: forall m map[string]gcrypto.CommonMessageSignatureProof, i mathint :: {ubits(m)[i]}
+//@     ubits(m)[i] ==> (exists h string :: h in m && pbits(m[h])[i])
+
+//@ define lim(ok, i, n) = ok ? (i < n ? i : n) : n
+
+//@ func VoteSummary.SetPrevotePowers
+//@   property C06
+//@   requires psum(vals, allbits(), len(vals)) <= MAXU64
+//@   requires vs.PrevoteBlockPower != nil
+//@   ensures block-power: forall h string :: h in prevotes ==> (h in vs.PrevoteBlockPower) && vs.PrevoteBlockPower[h] == psum(vals, pbits(prevotes[h]), len(vals))
+//@   ensures same-targets: forall h string :: (h in vs.PrevoteBlockPower) == (h in prevotes)
+//@   ensures total-counts-each-validator-once: vs.TotalPrevotePower == psum(vals, ubits(prevotes), len(vals))
+//@   ensures most-voted-is-max: forall h string :: h in prevotes ==> vs.PrevoteBlockPower[h] <= ((vs.MostVotedPrevoteHash in prevotes) ? vs.PrevoteBlockPower[vs.MostVotedPrevoteHash] : 0)
+//@   ensures most-voted-tie-break: forall h string :: h in prevotes && (vs.MostVotedPrevoteHash in prevotes) && vs.PrevoteBlockPower[h] > 0 &&
+//@       vs.PrevoteBlockPower[h] == vs.PrevoteBlockPower[vs.MostVotedPrevoteHash] ==> !(h < vs.MostVotedPrevoteHash)
+//@   ensures most-voted-empty-when-no-votes: (forall h string :: h in prevotes ==> vs.PrevoteBlockPower[h] == 0) ==> vs.MostVotedPrevoteHash == ""
+//@   modifies vs.TotalPrevotePower, vs.MostVotedPrevoteHash, vs.PrevoteBlockPower[*]
+//@   loop 1 invariant o1: forall h string :: visited(1)[h] ==> (h in vs.PrevoteBlockPower) && vs.PrevoteBlockPower[h] == psum(vals, pbits(prevotes[h]), len(vals))
+//@   loop 1 invariant o2: forall h string :: (h in vs.PrevoteBlockPower) == visited(1)[h]
+//@   loop 1 invariant o3: forall h string :: visited(1)[h] ==> h in prevotes
+//@   loop 1 invariant o4: vs.TotalPrevotePower == psum(vals, bsbits(seen), len(vals))
+//@   loop 1 invariant o5: forall j mathint :: bsbits(seen)[j] ==> 0 <= j && j < len(vals) && ubits(prevotes)[j]
+//@   loop 1 invariant o6: forall h string, j mathint :: visited(1)[h] && pbits(prevotes[h])[j] && 0 <= j && j < len(vals) ==> bsbits(seen)[j]
+//@   loop 1 invariant o7a: forall h string :: visited(1)[h] ==> vs.PrevoteBlockPower[h] <= maxPow
+//@   loop 1 invariant o7b: maxPow > 0 ==> visited(1)[maxHash] && vs.PrevoteBlockPower[maxHash] == maxPow
+//@   loop 1 invariant o7c: maxPow == 0 ==> maxHash == ""
+//@   loop 1 invariant o7d: forall h string :: visited(1)[h] && vs.PrevoteBlockPower[h] == maxPow && maxPow > 0 ==> !(h < maxHash)
+//@   loop 1 invariant o8: vs.PrevoteBlockPower == old(vs.PrevoteBlockPower)
+//@   loop 2 invariant n2: ok ==> bsbits(bs)[i] && i < MAXINT
+//@   loop 2 invariant n3a: ok && i < len(vals) ==> blockPow == psum(vals, bsbits(bs), i)
+//@   loop 2 invariant n3b: !(ok && i < len(vals)) ==> blockPow == psum(vals, bsbits(bs), len(vals))
+//@   loop 2 hint step: blockPow == psum(vals, bsbits(bs), pre(i) + 1)
+//@   loop 2 invariant n4: vs.TotalPrevotePower == psum(vals, bsbits(seen), len(vals))
+//@   loop 2 invariant n5: forall j mathint :: bsbits(seen)[j] ==> 0 <= j && j < len(vals) && ubits(prevotes)[j]
+//@   loop 2 invariant n6: forall h string, j mathint :: visited(1)[h] && h != blockHash && pbits(prevotes[h])[j] && 0 <= j && j < len(vals) ==> bsbits(seen)[j]
+//@   loop 2 invariant n7a: ok && i < len(vals) ==> (forall j mathint :: bsbits(bs)[j] && 0 <= j && j < i ==> bsbits(seen)[j])
+//@   loop 2 invariant n7b: !(ok && i < len(vals)) ==> (forall j mathint :: bsbits(bs)[j] && 0 <= j && j < len(vals) ==> bsbits(seen)[j])
+//@   loop 2 invariant n8: visited(1)[blockHash] && (blockHash in prevotes) && bsbits(bs) == pbits(prevotes[blockHash])
+
+//@ func VoteSummary.SetPrecommitPowers
+//@   property C06
+//@   requires psum(vals, allbits(), len(vals)) <= MAXU64
+//@   requires vs.PrecommitBlockPower != nil
+//@   ensures block-power: forall h string :: h in precommits ==> (h in vs.PrecommitBlockPower) && vs.PrecommitBlockPower[h] == psum(vals, pbits(precommits[h]), len(vals))
+//@   ensures same-targets: forall h string :: (h in vs.PrecommitBlockPower) == (h in precommits)
+//@   ensures total-counts-each-validator-once: vs.TotalPrecommitPower == psum(vals, ubits(precommits), len(vals))
+//@   ensures most-voted-is-max: forall h string :: h in precommits ==> vs.PrecommitBlockPower[h] <= ((vs.MostVotedPrecommitHash in precommits) ? vs.PrecommitBlockPower[vs.MostVotedPrecommitHash] : 0)
+//@   ensures most-voted-tie-break: forall h string :: h in precommits && (vs.MostVotedPrecommitHash in precommits) && vs.PrecommitBlockPower[h] > 0 &&
+//@       vs.PrecommitBlockPower[h] == vs.PrecommitBlockPower[vs.MostVotedPrecommitHash] ==> !(h < vs.MostVotedPrecommitHash)
+//@   ensures most-voted-empty-when-no-votes: (forall h string :: h in precommits ==> vs.PrecommitBlockPower[h] == 0) ==> vs.MostVotedPrecommitHash == ""
+//@   modifies vs.TotalPrecommitPower, vs.MostVotedPrecommitHash, vs.PrecommitBlockPower[*]
+//@   loop 1 invariant o1: forall h string :: visited(1)[h] ==> (h in vs.PrecommitBlockPower) && vs.PrecommitBlockPower[h] == psum(vals, pbits(precommits[h]), len(vals))
+//@   loop 1 invariant o2: forall h string :: (h in vs.PrecommitBlockPower) == visited(1)[h]
+//@   loop 1 invariant o3: forall h string :: visited(1)[h] ==> h in precommits
+//@   loop 1 invariant o4: vs.TotalPrecommitPower == psum(vals, bsbits(seen), len(vals))
+//@   loop 1 invariant o5: forall j mathint :: bsbits(seen)[j] ==> 0 <= j && j < len(vals) && ubits(precommits)[j]
+//@   loop 1 invariant o6: forall h string, j mathint :: visited(1)[h] && pbits(precommits[h])[j] && 0 <= j && j < len(vals) ==> bsbits(seen)[j]
+//@   loop 1 invariant o7a: forall h string :: visited(1)[h] ==> vs.PrecommitBlockPower[h] <= maxPow
+//@   loop 1 invariant o7b: maxPow > 0 ==> visited(1)[maxHash] && vs.PrecommitBlockPower[maxHash] == maxPow
+//@   loop 1 invariant o7c: maxPow == 0 ==> maxHash == ""
+//@   loop 1 invariant o7d: forall h string :: visited(1)[h] && vs.PrecommitBlockPower[h] == maxPow && maxPow > 0 ==> !(h < maxHash)
+//@   loop 1 invariant o8: vs.PrecommitBlockPower == old(vs.PrecommitBlockPower)
+//@   loop 2 invariant n2: ok ==> bsbits(bs)[i] && i < MAXINT
+//@   loop 2 invariant n3a: ok && i < len(vals) ==> blockPow == psum(vals, bsbits(bs), i)
+//@   loop 2 invariant n3b: !(ok && i < len(vals)) ==> blockPow == psum(vals, bsbits(bs), len(vals))
+//@   loop 2 hint step: blockPow == psum(vals, bsbits(bs), pre(i) + 1)
+//@   loop 2 invariant n4: vs.TotalPrecommitPower == psum(vals, bsbits(seen), len(vals))
+//@   loop 2 invariant n5: forall j mathint :: bsbits(seen)[j] ==> 0 <= j && j < len(vals) && ubits(precommits)[j]
+//@   loop 2 invariant n6: forall h string, j mathint :: visited(1)[h] && h != blockHash && pbits(precommits[h])[j] && 0 <= j && j < len(vals) ==> bsbits(seen)[j]
+//@   loop 2 invariant n7a: ok && i < len(vals) ==> (forall j mathint :: bsbits(bs)[j] && 0 <= j && j < i ==> bsbits(seen)[j])
+//@   loop 2 invariant n7b: !(ok && i < len(vals)) ==> (forall j mathint :: bsbits(bs)[j] && 0 <= j && j < len(vals) ==> bsbits(seen)[j])
+//@   loop 2 invariant n8: visited(1)[blockHash] && (blockHash in precommits) && bsbits(bs) == pbits(precommits[blockHash])
